@@ -54,7 +54,8 @@ def run(ctx):
         q = rng.choice([[], [], [("acl", "")], [("versionId", "v 1")], [("response-content-type", "text/plain"), ("x-other", "1")],
                         [("uploads", "")], [("versions", ""), ("prefix", "a")], [("tagging", "")], [("partNumber", "2"), ("uploadId", "u/1")]])
         amz = rng.choice([[], [("x-amz-meta-a", " v1 ")], [("x-amz-meta-b", "1"), ("x-amz-meta-b", "2")], [("x-amz-acl", "public-read"), ("X-Amz-Meta-A", "x")],
-                          [("x-amz-meta-note", "column A  column B")], [("x-amz-meta-c", "a   b\tc  d")]])   # inner whitespace is signed as sent (V2 folds nothing)
+                          [("x-amz-meta-note", "column A  column B")], [("x-amz-meta-reviewedby", "joe@example.com"), ("x-amz-meta-reviewedby", "jane@example.com")],
+                          [("x-amz-meta-b", "2"), ("x-amz-meta-a", "z"), ("x-amz-meta-b", "10"), ("x-amz-meta-b", "1")], [("x-amz-meta-c", "a   b\tc  d")]])   # inner whitespace is signed as sent (V2 folds nothing)
         date_hdr = rng.choice([[("date", "Tue, 27 Mar 2007 19:36:42 +0000")], [("x-amz-date", "Tue, 27 Mar 2007 21:20:26 +0000")],
                                [("date", "Tue, 27 Mar 2007 19:36:42 +0000"), ("x-amz-date", "Tue, 27 Mar 2007 21:20:26 +0000")]])
         other = rng.choice([[], [("content-type", "image/jpeg")], [("content-md5", "4gJE4saaMU4BqNR0kLY+lw=="), ("content-type", "text/plain")]])
@@ -85,6 +86,13 @@ def run(ctx):
                     inner = v.strip(); k = inner.index(" ")
                     hs3 = [(a, (inner[:k] + " " + inner[k:]) if a == n else b_) for a, b_ in headers]
                     add("header:mut-inner-space", method, raw_path, q, H(hs=hs3), vh, "reject")
+        rep = [n for n, _ in amz if sum(1 for a, _ in amz if a.lower() == n.lower()) > 1]
+        if rep:
+            # the values of a repeated header are signed in the order they were sent: swapping two of them is another request
+            idx = [k_ for k_, (a, _) in enumerate(headers) if a.lower() == rep[0].lower()]
+            hs4 = list(headers); hs4[idx[0]], hs4[idx[-1]] = hs4[idx[-1]], hs4[idx[0]]
+            if hs4 != headers:
+                add("header:mut-swap-repeated-values", method, raw_path, q, H(hs=hs4), vh, "reject")
         subs = [p for p in q if p[0] in S.V2_SUBRESOURCES]
         if subs:
             add("header:mut-drop-subresource", method, raw_path, [p for p in q if p != subs[0]], H(), vh, "reject")
@@ -102,6 +110,14 @@ def run(ctx):
             pq = q + [("AWSAccessKeyId", S.AK), ("Expires", str(exp)), ("Signature", sg)]
             add("presigned:" + place, method, raw_path, pq, ph, vh, "accept" if place != "past" else "reject")
             if place == "future":
+                # a presigned URL on a request that also carries an x-amz-date header: the header is signed as an x-amz-* header, the fourth
+                # line stays the Expires value - a signature over an empty fourth line (what header authentication with x-amz-date signs) is no presigned URL
+                ph2 = ph + [("x-amz-date", "Tue, 27 Mar 2007 21:20:26 +0000")]
+                sg2 = S.sign_v2(S.SK, S.v2_string_to_sign(method, raw_path, q, ph2, str(exp), vh))
+                add("presigned:with-amz-date-header", method, raw_path, q + [("AWSAccessKeyId", S.AK), ("Expires", str(exp)), ("Signature", sg2)], ph2, vh, "accept")
+                sg3 = S.sign_v2(S.SK, S.v2_string_to_sign(method, raw_path, q, ph2, "", vh))
+                add("presigned:mut-empty-date-slot", method, raw_path, q + [("AWSAccessKeyId", S.AK), ("Expires", str(exp)), ("Signature", sg3)], ph2, vh, "reject")
+                add("presigned:mut-empty-date-slot-other-expires", method, raw_path, q + [("AWSAccessKeyId", S.AK), ("Expires", str(exp + 5000)), ("Signature", sg3)], ph2, vh, "reject")
                 add("presigned:mut-expires", method, raw_path, [(k, str(exp + 1)) if k == "Expires" else (k, v) for k, v in pq], ph, vh, "reject")
                 add("presigned:mut-key", method, raw_path, [(k, S.AK[:-1] + "Z") if k == "AWSAccessKeyId" else (k, v) for k, v in pq], ph, vh, "reject")
                 add("presigned:mut-signature", method, raw_path, [(k, v[:-3] + "AA=") if k == "Signature" else (k, v) for k, v in pq], ph, vh, "reject")
